@@ -39,7 +39,7 @@ def units(tier):
         out.append((f"independent-period0:{spec_name(spec)}|agents=3", "u_indep", {"spec": spec, "n": 3, "period0_only": True}))
     if tier == "thorough":
         out = [(a, b, dict(c, full=True)) for a, b, c in out]
-        out.append(("independent:TC[T=3]|agents=3", "u_indep", {"spec": ("TC", dict(T=3, nw=3, nc=2)), "n": 3, "period0_only": False}))
+        out.append(("independent:TC[T=3]|agents=2", "u_indep", {"spec": ("TC", dict(T=3, nw=3, nc=2)), "n": 2, "period0_only": False}))
         out.append(("independent:TD[T=2,nw=3]|agents=2", "u_indep", {"spec": ("TD", dict(T=2, nw=3)), "n": 2, "period0_only": False}))
         out.append(("independent:TN[T=2]|agents=3", "u_indep", {"spec": ("TN", dict(T=2)), "n": 3, "period0_only": False}))
     return out
@@ -106,6 +106,9 @@ def u_indep(rec, spec, n, period0_only, full=False):
     if len(base_paths) > 1 and not full:
         # models whose later periods fork: a selection of the transformations in the quick tier
         variants = [v for k, v in enumerate(variants) if k in (0, len(variants) // 3, len(variants) // 2) or v[0].startswith(("duplicate", "reversed"))] + [v for v in variants if v[0].startswith("subset") and len(v[1]) == 1][:1]
+    elif len(base_paths) > 1:
+        # thorough tier: every second transformation for forking models (each pair of paths is compared)
+        variants = [v for k, v in enumerate(variants) if k % 2 == 0 or v[0].startswith(("duplicate", "reversed"))]
     base_cols = [(pc, frame_terms(df)[0]) for pc, df in base_paths]
     periods = [0] if period0_only else list(range(T))
     n_cmp = 0
